@@ -333,6 +333,9 @@ def part_b(chk, E, tmp):
     seed = rng.randrange(1000)
     subjects.append((f"fit logistic seed={seed} n_iter={rng_iter}", fit_thunk("logistic", multi, seed, dimension=3, source_dimension=2)))
     subjects.append((f"fit linear-univariate seed={seed}", fit_thunk("linear", uni, seed, dimension=1)))
+    # a documented option of every model: initial parameters drawn at random (the seed of the run must cover them, F32)
+    subjects.append((f"fit logistic random-initialization seed={seed}",
+                     fit_thunk("logistic", multi, seed, dimension=3, source_dimension=2, initialization_method="random")))
     if chk.tier == "thorough":
         subjects.append((f"fit shared_speed seed={seed}", fit_thunk("shared_speed_logistic", multi, seed, dimension=3, source_dimension=1)))
         subjects.append((f"fit joint seed={seed}", fit_thunk("joint", joint, seed, dimension=4, source_dimension=1)))
